@@ -19,6 +19,7 @@ RULE = ('Expression text drawn from a grammar (arithmetic incl. ** // %, calls w
         'Non-trivial: the expression holds a name that is a proper prefix or suffix of another name, number or '
         'string in it, and the map changes at least 2 distinct names that occur in the expression. '
         'Distinct: sha1 of (expression, map).')
+RULE = RULE + (' Input shapes added after the seeded-change rounds (DESIGN.md section 8): ' + 'names float() would read as numbers (inf, nan), non-ASCII identifiers, one-atom expressions, Term objects shared by two equations of a block, the same equation renamed twice.')
 ASSUMPTIONS = [
     'expressions are ASCII, single-line, syntactically valid Python expressions without f-strings/attribute access',
     'value oracle uses Python eval semantics; equality by repr (same operation tree on the same values)',
